@@ -326,6 +326,15 @@ def write_evidence(prop, tier, seed, ctx, status, err, violations, known_hits, w
     }
     if ctx:
         cov.update({k: v for k, v in ctx.extra.items() if k != "exhaustive"})
+        r_ = ctx.repo
+        cov["program_normal_form"] = {
+            "rule": "applied to the parsed package before analysis (sa/inline.py); reports print the original file:line",
+            "helpers_inlined": [f"{h} -> {c}" for h, c, _ in getattr(r_, "inlined", [])][:40],
+            "object_loops_unrolled": [f"{c}:{l}" for c, l in getattr(r_, "unrolled", [])][:40],
+            "list_loops_as_comprehensions": [f"{c}:{l}" for c, l in getattr(r_, "comprehended", [])][:40],
+            "continue_guards_as_conditionals": [f"{c}:{l}" for c, l in getattr(r_, "unguarded", [])][:40],
+            "conditional_values_as_statements": [f"{c}:{l}" for c, l in getattr(r_, "lowered", [])][:40],
+        }
     if err:
         cov["analysis_error"] = err.splitlines()[0]
     ev = {
